@@ -134,3 +134,13 @@ package routing
 //@           policy.FeeBaseMSat == msg.BaseFee && policy.FeeProportionalMillionths == msg.FeeRate
 //@   ensures ret(VerifyChannelUpdateSignature) != nil ==> !result && policy.FeeBaseMSat == old(policy.FeeBaseMSat) &&
 //@           policy.FeeProportionalMillionths == old(policy.FeeProportionalMillionths) && policy.TimeLockDelta == old(policy.TimeLockDelta)
+//@
+//@ // ---- the onion payload fits: the final-hop size estimate describes the hop newRoute will build. For a payment to a
+//@ // ---- blinded path that hop always carries total_amount_msat (newRoute sets TotalAmtMsat), so the estimate must too.
+//@ func lastHopPayloadSize
+//@   props C19
+//@   loop * havoc
+//@   site call PayloadSize nth 0 as blinded-estimate-has-total-amount: assert r.BlindedPaymentPathSet != nil && arg(0).TotalAmtMsat != 0
+//@   site call PayloadSize nth 0 as blinded-estimate-fields: assert arg(0).AmtToForward == amount && arg(0).OutgoingTimeLock == wrap(finalHtlcExpiry, 32) && arg(1) == 0
+//@   site call PayloadSize nth 1: assert r.BlindedPaymentPathSet == nil && arg(0).AmtToForward == amount &&
+//@        arg(0).OutgoingTimeLock == wrap(finalHtlcExpiry, 32) && arg(1) == 0
